@@ -327,6 +327,7 @@ func init() {
 	c16.Assume = append(c16.Assume, "the Go race detector's bounded shadow history (a race whose first access was evicted is missed; mitigated by many short runs)", "porcupine v1.3.0")
 	specs["C16"] = c16
 	specs["C19"] = net("C19", 3000, 300000, "one case = one built-in plugin (optionally between valid neighbours) with an argument vector drawn from valid, boundary and invalid values of its argument kinds (addresses of both families incl. v4-mapped, CIDRs, durations incl. negative and huge, integers incl. negative/overflowing, URLs incl. >255 and >65535 bytes, domain names incl. over-long labels, MAC spellings, file names incl. missing, wrong arity), written as YAML and started through the real config.Load and LoadPlugins; rejected configurations are counted; accepted ones get 10..40 DHCPv4/DHCPv6 requests and every handler result is serialised, parsed back and compared; distinct = distinct (context-switch hash, reply-sequence hash); non-trivial = at least 2 datagrams delivered", "confswarm")
+	specs["C17"] = net("C17", 2400, 200000, "one case = one simulated server lifetime with a drawn chain of option plugins around a lease plugin (ipv6only before range, lease_time before/after range, autoconfigure after an exhausted or absent range, nbp last, sleep anywhere; DHCPv6: prefix, dns, searchdomains, nbp, sleep) with accepted argument vectors (1..4 addresses, MTUs, durations, domain lists, 1..3 routes, URL schemes with/without params), and 3..24 DISCOVER/REQUEST (or DHCPv6) messages whose parameter request list / ORO is every subset of the relevant codes or absent, with/without option 116; every option of every reply on the wire is compared byte for byte with an independent encoding of the configured value; distinct = distinct (context-switch hash, reply-sequence hash); non-trivial = at least 2 datagrams delivered", "options")
 	specs["C03"] = net("C03", 2400, 200000, "as C02 but crash-heavy: 1..6 crashes placed at statement boundaries (half inside the range plugin / start-up), plus restarts of the range plugin on copies of the database taken at drawn instants; the database is read back by an independent connection at every crash and at the end", "lease4-crash", "lease4-crash", "lease4", "lease4-sqlfault")
 }
 
